@@ -6,7 +6,7 @@ K1 = "K1-cipher-mode-byte-unauthenticated"
 
 
 def run(ck):
-    ck.prove(["Properties_C12", "Properties_Src2", "Properties_SrcSeq", "Properties_SrcE2E", "Properties_SrcE2Ed", "SrcRun5"], THEOREMS + ["SRC_verify", "SRC_seq_machine_agrees", "SRC_seq_machine_agrees_any", "SRC_verify_is_seq_ok", "SRC_verify_file_is_sequential", "SRC_verify_file_seed_independent", "SRC_execute_verify_is_model", "SRC_execute_decrypt_rejects_what_verify_rejects"])   # SrcRun5: the translated whole-file runs (a stale translation concerns this property)
+    ck.prove(["Properties_C12", "Properties_Src2", "Properties_SrcSeq", "Properties_SrcE2E", "Properties_SrcE2Ed", "Properties_SrcE2Ef", "Properties_SrcE2Ef_cor", "SrcRun5"], THEOREMS + ["SRC_verify", "SRC_seq_machine_agrees", "SRC_seq_machine_agrees_any", "SRC_verify_is_seq_ok", "SRC_verify_file_is_sequential", "SRC_verify_file_seed_independent", "SRC_execute_verify_is_model", "SRC_execute_decrypt_rejects_what_verify_rejects", "SRC_execute_decrypt_is_model_on_accepted_files", "SRC_verdicts_coincide"])   # SrcRun5: the translated whole-file runs (a stale translation concerns this property)
     exe = small_driver(ck)
     env = small_env(ck)
     big = ck.tier == "thorough"
